@@ -5,14 +5,14 @@ while true; do
     [ -d "$d" ] || continue
     id=${d#/tmp/seed-}
     [ -f "$d/SEED/meta.json" ] && [ -f "$d/SEED/patch.diff" ] || continue
-    [ -e "/verif/seeded/$id" ] && continue
+    [ -e "$d/SEED/.done" ] && continue
     [ -e "$d/SEED/verify.json" ] && continue
     [ -e "$d/SEED/.verifying" ] && continue
     # wait until the agent has finished writing (meta older than 3 min)
     if [ $(( $(date +%s) - $(stat -c %Y "$d/SEED/meta.json") )) -lt 180 ]; then continue; fi
     while [ $(pgrep -fc "tools/[v]erifyseed.py") -ge 2 ]; do sleep 20; done
     touch "$d/SEED/.verifying"
-    ( echo "=== $id $(date +%H:%M)" >> /verif/.build/seedbatch.log; python3 /verif/tools/verifyseed.py $id >> /verif/.build/seedbatch.log 2>&1; rm -f "$d/SEED/.verifying" ) &
+    ( echo "=== $id $(date +%H:%M)" >> /verif/.build/seedbatch.log; python3 /verif/tools/verifyseed.py $id >> /verif/.build/seedbatch.log 2>&1; rm -f "$d/SEED/.verifying"; touch "$d/SEED/.done" ) &
   done
   sleep 60
 done
